@@ -31,7 +31,10 @@ for p in props:
     for d in sorted(glob.glob(os.path.join(ROOT, 'seeded', pid + '-*'))):
         m = json.load(open(os.path.join(d, 'meta.json')))
         note = (m.get('checks') or '')
-        seeds.append('%s: %s' % (os.path.basename(d).split('-')[1], 'caught' if note.startswith('caught') else ('not caught' if note.startswith('not caught') else 'pending')))
+        st = 'caught' if note.startswith('caught') else ('not caught' if note.startswith('not caught') else 'pending')
+        if m.get('superseded'):
+            st = 'superseded'
+        seeds.append('%s: %s' % (os.path.basename(d).split('-')[1], st))
     suites = ','.join(s for s, _ in vlib.PROPS[pid]['suites']) if pid in vlib.PROPS else '-'
     out.append('| %s | %s | %s | %s | %d | %d | %s |' % (pid, c['level_claimed']['category'] if c else 'not claimed', suites, nth or '-', len(kn), len(fx), '; '.join(seeds)))
 block = '\n'.join(out)
